@@ -124,6 +124,21 @@ pub fn gen_doc_ids(r: &mut Rng, with_h: bool, mixed_alt: bool, numeric_ids: bool
             d.rows.push(x);
         }
     }
+    // an author column that is present need not carry a value on every row: some residues fall back to their label
+    // number / label chain (whole residues, in every model alike)
+    if r.chance(1, 4) {
+        let keys: Vec<(String, Option<i64>)> = shape.iter().filter(|x| x.label_seq.is_some()).map(|x| (x.label_asym.clone(), x.label_seq)).collect();
+        if !keys.is_empty() {
+            for _ in 0..1 + r.below(2) {
+                let k = r.pick(&keys).clone();
+                let which = r.below(3);
+                for x in d.rows.iter_mut().filter(|x| (x.label_asym.clone(), x.label_seq) == k) {
+                    if which != 1 { x.auth_seq = None; }
+                    if which == 1 { x.auth_asym = None; }
+                }
+            }
+        }
+    }
     // what an absent optional column means for the rows
     let cols = d.cols.clone();
     let has = |_: &CifDoc, c: &str| cols.contains(&c);
